@@ -603,7 +603,9 @@ class BaseChannel:
         # there is no output on the channel. we do this because sometimes telnet needs a kick to get
         # it to prompt for auth -- particularity when connecting to terminal server/console port
         auth_start_time = datetime.now().timestamp()
-        return_interval = self._base_channel_args.timeout_ops / 10
+        # a timeout_ops of 0 means "no timeout", not "send a return on every empty read"; keep the
+        # interval of the default timeout_ops in that case
+        return_interval = (self._base_channel_args.timeout_ops or BaseChannelArgs.timeout_ops) / 10
 
         return (
             self.auth_telnet_login_pattern,
